@@ -61,6 +61,7 @@ class XTyper:
         self.bliss_sites: list[tuple] = []
         self.depth = 0
         self.counter = 0
+        self.vs_attrs: dict = {}            # igraph object name -> {attribute key: stored sequence type}; only for graphs built by hand
 
     def fresh(self, hint="g"):
         self.counter += 1
@@ -113,6 +114,16 @@ class XTyper:
                 return None
             v = self.ev(fi, st.value, env)
             for tg in (st.targets if isinstance(st, ast.Assign) else [st.target]):
+                if isinstance(tg, ast.Subscript):
+                    b = self.ev(fi, tg.value, env)
+                    if b[0] == "VS" and b[1] in self.vs_attrs:
+                        k = self.ev(fi, tg.slice, env)
+                        if k[0] != "Key":
+                            raise AnalysisError(f"R-BLISS: vertex attribute stored under a key that is not constant at {fi.loc(st)}")
+                        if v[0] == "Seq" and v[1] != (b[2], b[1]) and v[1] != "POS" and self.strict:
+                            raise XViolation(st, f"vertex attribute `{k[1]}` is filled from a sequence indexed by {fmt_space(v[1])}, not by the vertex ids of this graph")
+                        self.vs_attrs[b[1]][k[1]] = v
+                    continue
                 self.assign(tg, v, env)
             return None
         if isinstance(st, ast.Return):
@@ -228,6 +239,14 @@ class XTyper:
                 return ("AttrDict", b[1])
             if b[0] == "AttrDict":
                 return ("Const", None)
+            if b[0] == "VS" and b[1] in self.vs_attrs:
+                g, space = b[1], b[2]
+                st_ = self.vs_attrs[g].get(k[1]) if k[0] == "Key" else None
+                if st_ is None:
+                    return U(f"vertex attribute {k[1] if k[0] == 'Key' else '?'} was never stored on this graph")
+                if st_[0] == "Seq":
+                    return ("Seq", (space, g), st_[2], bool(st_[3]), ("nodes", g))
+                return U("stored vertex attribute")
             if b[0] == "VS":
                 g, space = b[1], b[2]
                 if k == ("Key", "_nx_name"):
@@ -257,6 +276,8 @@ class XTyper:
                 return ("VS", b[1], b[2])
             if b[0] == "Graph" and e.attr == "nodes":
                 return ("NodeView", b[1])
+            if b[0] == "Graph" and e.attr == "edges":
+                return ("Seq", "POS", ("TupleOf", (("NX", b[1]), ("NX", b[1])), (False, False)), False, ("edges", b[1]))
             return ("Bound", b, e.attr)
         if isinstance(e, ast.Call):
             return self.call_expr(fi, e, env)
@@ -321,6 +342,25 @@ class XTyper:
             if q == "igraph.Graph.from_networkx":
                 g = args[0]
                 return ("IGraph", g[1] if g[0] == "Graph" else self.fresh(), "IG")
+            if q == "igraph.Graph":
+                # a graph put together by hand: n vertices (ids 0..n-1), edges given as pairs of vertex ids
+                n_e = kwarg(e, "n") if kwarg(e, "n") is not None else (e.args[0] if e.args else None)
+                ed_e = kwarg(e, "edges") if kwarg(e, "edges") is not None else (e.args[1] if len(e.args) > 1 else None)
+                n = self.len_symbol(fi, n_e, env) if n_e is not None else None
+                g = n[1] if n and n[0] == "nodes" else None
+                ed = self.ev(fi, ed_e, env) if ed_e is not None else None
+                if g is None:
+                    raise AnalysisError(f"R-BLISS: igraph object built by hand at {fi.loc(e)}: cannot tell whose vertices it has (n is not the number of nodes of a graph)")
+                if ed is not None:
+                    comps = ed[2][1] if ed[0] == "Seq" and isinstance(ed[2], tuple) and ed[2][:1] == ("TupleOf",) else None
+                    if comps is None:
+                        raise AnalysisError(f"R-BLISS: igraph object built by hand at {fi.loc(e)}: cannot type its edge list ({fmt(ed)})")
+                    bad = [c for c in comps if c != ("IG", g)]
+                    if bad and self.strict:
+                        raise XViolation(e, f"igraph takes the end points of an edge as vertex ids (positions 0..n-1 in listing order); here they are given in {fmt_space(bad[0])}: "
+                                            "the two coincide only while the labels happen to be 0..n-1 in listing order, otherwise bonds are attached to the wrong atoms")
+                self.vs_attrs[g] = {}
+                return ("IGraph", g, "IG")
             if q == "networkx.relabel_nodes":
                 g, m = args[0], args[1] if len(args) > 1 else U("no mapping")
                 self.relabels.append((fi, e, g, m))
@@ -431,6 +471,15 @@ class XTyper:
                     return ("IGraph", recv[1], "CAN")     # igraph's own contract in every version
                 raise XViolation(e, f"permute_vertices receives {fmt(p)}, not the vector returned by canonical_permutation of the same graph")
             if recv[0] == "Graph":
+                if f.attr == "edges":
+                    return ("Seq", "POS", ("TupleOf", (("NX", recv[1]), ("NX", recv[1])), (False, False)), False, ("edges", recv[1]))
+                if f.attr == "nodes" and (e.args or e.keywords):
+                    d = kwarg(e, "data") if kwarg(e, "data") is not None else (e.args[0] if e.args else None)
+                    dk = self.ev(fi, d, env) if d is not None else None
+                    part = ctx.repo.const("tucan.graph_attributes", "PARTITION")
+                    if dk is not None and dk[0] == "Key":
+                        return ("Seq", ("IG", recv[1]), ("TupleOf", (("NX", recv[1]), "COL" if dk[1] == part else ("ATTR", dk[1])), (True, False)), False, ("nodes", recv[1]))
+                    return ("Seq", ("IG", recv[1]), ("TupleOf", (("NX", recv[1]), "VAL"), (True, False)), False, ("nodes", recv[1]))
                 if f.attr == "copy":
                     return ("Graph", recv[1])           # same nodes, same insertion order
                 if f.attr in ("number_of_nodes", "order"):
